@@ -180,6 +180,9 @@ def run(ctx):
     vm = tc.lookup(vm_c[0]) if vm_c else None
     if vm is None:
         raise AnalysisError('anchor-lost role=value matcher')
+    # two forms of the same answers, written out (in place: the functions mean the same before and after)
+    canon_flag_break(top.node)
+    canon_return_is_none(vm.node)
 
     # ---------------- C14.a totality: the value matcher (with the operator filter inlined; its recursion is the same function,
     #                  so "no escape from one activation" gives totality by induction), then the top level over it
@@ -324,6 +327,9 @@ def run(ctx):
         match_none = mn[0] if mn else None
         N = True if (rec_none is True and match_none is False) else False if (rec_none is False or match_none is True) else None
         S = isinst(s, M, 'str')
+        if match_none is True:
+            # a filter value known to be None is no list, no operator object and no string
+            L, D, S = (False if L is None else L), (False if D is None else D), (False if S is None else S)
         entered = s.extra.get('entered', frozenset())
         fn_called = any(k[1].startswith('lib:fnmatch.') for k in s.extra if isinstance(k, tuple) and k[0] == 'n')
         # classify
@@ -341,6 +347,8 @@ def run(ctx):
             outcome = 'pattern'
         elif rv.kind == 'sym' and isinstance(rv.name, tuple) and rv.name[0] == 'cmp' and rv.name[1] == 'Eq' and {rv.name[2], rv.name[3]} == {M, R}:
             outcome = 'equality'
+        elif rv.kind == 'true' and rec_none is True and match_none is True:
+            outcome = 'equality'        # None == None, answered in place
         elif rv.kind == 'sym' and isinstance(rv.name, tuple) and rv.name[0] == 'call' and site_label.get(rv.name[2], '').startswith('lib:fnmatch.'):
             outcome = 'pattern'
         else:
@@ -465,6 +473,74 @@ def run(ctx):
     return res
 
 
+def canon_flag_break(fn_node):
+    """`ok = True; for ..: if c: ok = False; break` ... `return ok`  ->  `for ..: if c: return False` ... `return True` (in place): the flag is
+    written at exactly these places and read by the returns after the loop only, so the two forms answer alike on every path"""
+    body = fn_node.body
+    loops = [x for x in body if isinstance(x, ast.For)]
+    if len(loops) != 1:
+        return False
+    lp = loops[0]
+    inits = [x for x in body if isinstance(x, ast.Assign) and len(x.targets) == 1 and isinstance(x.targets[0], ast.Name) and
+             isinstance(x.value, ast.Constant) and x.value.value is True and body.index(x) < body.index(lp)]
+    for init in inits:
+        flag = init.targets[0].id
+        stores = [x for x in ast.walk(fn_node) if isinstance(x, ast.Name) and x.id == flag and isinstance(x.ctx, ast.Store)]
+        loads = [x for x in ast.walk(fn_node) if isinstance(x, ast.Name) and x.id == flag and isinstance(x.ctx, ast.Load)]
+        rets = [x for x in body[body.index(lp) + 1:] if isinstance(x, ast.Return) and isinstance(x.value, ast.Name) and x.value.id == flag]
+        if len(rets) != 1 or len(loads) != 1 or lp.orelse:
+            continue
+        pairs = []
+
+        def find(stmts):
+            for i, st_ in enumerate(stmts):
+                if isinstance(st_, ast.Assign) and len(st_.targets) == 1 and isinstance(st_.targets[0], ast.Name) and st_.targets[0].id == flag:
+                    if isinstance(st_.value, ast.Constant) and st_.value.value is False and i + 1 < len(stmts) and isinstance(stmts[i + 1], ast.Break):
+                        pairs.append((stmts, i))
+                for fld in ('body', 'orelse'):
+                    if isinstance(st_, ast.If):
+                        find(getattr(st_, fld))
+        find(lp.body)
+        if len(pairs) + 1 != len(stores) or not pairs:
+            continue
+        if any(isinstance(x, ast.Break) for x in ast.walk(lp)) and sum(1 for x in ast.walk(lp) if isinstance(x, ast.Break)) != len(pairs):
+            continue
+        for stmts, i in pairs:
+            stmts[i:i + 2] = [ast.copy_location(ast.Return(value=ast.copy_location(ast.Constant(value=False), stmts[i])), stmts[i])]
+        rets[0].value = ast.copy_location(ast.Constant(value=True), rets[0].value)
+        body.remove(init)
+        return True
+    return False
+
+
+def canon_return_is_none(fn_node):
+    """`return x is None` (x a parameter / local name)  ->  `if x is None: return True` / `return False` (in place; likewise `is not`)"""
+    done = False
+
+    def rewrite(stmts):
+        nonlocal done
+        out = []
+        for st_ in stmts:
+            for fld in ('body', 'orelse', 'finalbody'):
+                b = getattr(st_, fld, None)
+                if isinstance(b, list) and b and isinstance(b[0], ast.stmt):
+                    setattr(st_, fld, rewrite(b))
+            for h in getattr(st_, 'handlers', []) or []:
+                h.body = rewrite(h.body)
+            v = st_.value if isinstance(st_, ast.Return) else None
+            if isinstance(v, ast.Compare) and len(v.ops) == 1 and isinstance(v.ops[0], (ast.Is, ast.IsNot)) and isinstance(v.left, ast.Name) and \
+                    isinstance(v.comparators[0], ast.Constant) and v.comparators[0].value is None:
+                pos = isinstance(v.ops[0], ast.Is)
+                out.append(ast.copy_location(ast.If(test=v, body=[ast.copy_location(ast.Return(value=ast.copy_location(ast.Constant(value=pos), st_)), st_)], orelse=[]), st_))
+                out.append(ast.copy_location(ast.Return(value=ast.copy_location(ast.Constant(value=not pos), st_)), st_))
+                done = True
+            else:
+                out.append(st_)
+        return out
+    fn_node.body = rewrite(fn_node.body)
+    return done
+
+
 def conjunction_shape(dom, top):
     """return exits: FALSE (after a failed match) or TRUE (after the loop); nothing else"""
     kinds = {}
@@ -480,6 +556,7 @@ def conjunction_shape(dom, top):
 
 
 def conjunction_ast(top, kinds=None):
+    canon_flag_break(top.node)       # (idempotent: the early-return form is left as it is)
     # the False return is inside the loop, guarded by the negated value match; the True return follows the loop
     loops = [n for n in walk_own(top.node) if isinstance(n, ast.For)]
     if len(loops) != 1:
